@@ -288,9 +288,13 @@ func keyC16(c C16Case) []byte {
 	return k
 }
 
-func TestC16(t *testing.T) {
-	Run(t, Prop[C16Case]{ID: "C16", Gen: genC16, Exhaustive: exhaustiveC16, Check: checkC16, Key: keyC16})
+func propC16() Prop[C16Case] {
+	return Prop[C16Case]{ID: "C16", Gen: genC16, Exhaustive: exhaustiveC16, Check: checkC16, Key: keyC16}
 }
+
+func TestC16(t *testing.T) { Run(t, propC16()) }
+
+func FuzzGenC16(f *testing.F) { RunFuzz(f, propC16()) }
 
 // checkC16Race is run from a binary built with -race: concurrent readers query one index,
 // scribble on what they get and query again; answers must match the brute force and the race
